@@ -35,6 +35,8 @@ type clH struct {
 	pos    []clPos
 	feeIn  map[string]*big.Int // fee account inflow per pool/denom (from balance deltas)
 	lastErr string
+	poolMin map[uint64]sdkmath.LegacyDec // smallest sqrt price seen in the pool: current price after every operation, tick prices of every stored tick
+	spCache map[string]sdkmath.LegacyDec
 }
 
 func accName(i int) string { return fmt.Sprintf("a%d", i) }
@@ -106,6 +108,7 @@ func (h *clH) dump(id uint64) {
 	liq := sdkmath.LegacyMustNewDecFromStr(p.CurrentTickLiquidity)
 	e.Obs("pool %d tick=%d sqrtP=%s liq=%s", id, p.CurrentTick, sp, liq)
 	ticks := k.GetAllInitializedTicksForPool(ctx, id)
+	h.notePrices(id, p, sp, ticks)
 	for _, t := range ticks {
 		e.Obs("tick %d gross=%s net=%s fg=%s", t.TickIndex, sdkmath.LegacyMustNewDecFromStr(t.LiquidityGross), sdkmath.LegacyMustNewDecFromStr(t.LiquidityNet), decCoinsStr(t.FeeGrowth))
 	}
@@ -275,6 +278,40 @@ func (h *clH) minSqrtPrice(pool uint64, q clPos) sdkmath.LegacyDec {
 		}
 	}()
 	return m
+}
+
+// notePrices keeps the smallest sqrt price the pool has seen (current price and the prices of its stored ticks)
+func (h *clH) notePrices(id uint64, p lptypes.Pool, cur sdkmath.LegacyDec, ticks []lptypes.TickInfo) {
+	if h.poolMin == nil {
+		h.poolMin = map[uint64]sdkmath.LegacyDec{}
+		h.spCache = map[string]sdkmath.LegacyDec{}
+	}
+	upd := func(v sdkmath.LegacyDec) {
+		if !v.IsPositive() {
+			return
+		}
+		if m, ok := h.poolMin[id]; !ok || v.LT(m) {
+			h.poolMin[id] = v
+		}
+	}
+	upd(cur)
+	for _, t := range ticks {
+		key := fmt.Sprintf("%d/%d", id, t.TickIndex)
+		v, ok := h.spCache[key]
+		if !ok {
+			func() {
+				defer func() { recover() }()
+				if x, err := lptypes.TickToSqrtPrice(t.TickIndex, p.TickParams); err == nil {
+					v = x
+				}
+			}()
+			if v.IsNil() {
+				v = sdkmath.LegacyZeroDec()
+			}
+			h.spCache[key] = v
+		}
+		upd(v)
+	}
 }
 
 func (h *clH) curTick(id uint64) int64 {
@@ -781,6 +818,9 @@ func (h *clH) drain() {
 				h.claim(q, q.owner, false)
 			}
 			minP := h.minSqrtPrice(pool, q)
+			if m, ok := h.poolMin[pool]; ok && m.IsPositive() && (minP.IsZero() || m.LT(minP)) {
+				minP = m // the pool's balance is what ALL its positions and swaps left behind: the smallest price it ever saw counts
+			}
 			cls := h.decrease(q, q.owner, true)
 			// class of a failing exit: `low_price_rounding` = the pool account is short of the computed amount and the
 			// sqrt prices involved are below 1e-9, where the fixed-point evaluation of the base formula loses whole coins
